@@ -229,7 +229,7 @@ def evaluate_z3_re_loop(
 
     return Some(
         construct_result(
-            lambda args: f"{args[0]}{{{expr.params()[0]},{expr.params()[1]}}}",
+            lambda args: f"(?:{args[0]}){{{expr.params()[0]},{expr.params()[1]}}}",
             children_results,
         )
     )
